@@ -77,6 +77,23 @@ class Signs:
         self._sum[bkey] = out
         return out
 
+    def _yield_summary(self, call, f):
+        callee = self.idx.resolve_call(f.module, call, f.cls)
+        if not isinstance(callee, FuncInfo):
+            return None
+        ys = [n for n in ast.walk(callee.node) if isinstance(n, ast.Yield) and n.value is not None]
+        if not ys:
+            return None
+        # evaluate the generator body like a function body and read the kinds of the yielded values in the environment at the end (a yielded
+        # name is bound once per item by a library call)
+        env2, rets = {}, []
+        self._block(callee.node.body, env2, callee, rets, {})
+        out = None
+        for y in ys:
+            k = self.kind_tuple(y.value, callee, env2)
+            out = k if out is None else join(out, k)
+        return out
+
     def _call_summary(self, node, f, env):
         callee = self.idx.resolve_call(f.module, node, f.cls)
         if not isinstance(callee, FuncInfo):
@@ -156,6 +173,13 @@ class Signs:
                 for n in ast.walk(st.target):
                     if isinstance(n, ast.Name):
                         env[n.id] = OTHER
+                # items of a library generator: the kinds of what it yields (joined over its yield statements)
+                if isinstance(st.iter, ast.Call) and isinstance(st.target, ast.Tuple):
+                    item = self._yield_summary(st.iter, f)
+                    if isinstance(item, tuple) and len(item) == len(st.target.elts):
+                        for a_, k_ in zip(st.target.elts, item):
+                            if isinstance(a_, ast.Name):
+                                env[a_.id] = k_
             pre = dict(env)
             for _ in range(2):
                 e1 = dict(env)
